@@ -312,18 +312,37 @@ func genPlock(r *rand.Rand) gcase {
 		pk = v2Packages(r, tree, "", pk)
 		doc = append(doc, jkv{"packages", pk})
 	}
+	var nokey []nv
+	nk := ""
 	if ver <= 2 {
-		doc = append(doc, jkv{"dependencies", v1Deps(r, tree)})
+		deps := v1Deps(r, tree)
+		// entries that name no package (fix 4dbc0083): an empty key, an alias without a target; what is nested below them IS listed
+		if r.Intn(5) == 0 {
+			var e jkv
+			switch r.Intn(3) {
+			case 0:
+				e = jkv{"", jobj{{"version", "9.9.9"}}}
+			case 1:
+				e = jkv{"alias-without-target", jobj{{"version", "npm:"}}}
+			default:
+				e = jkv{"", jobj{{"version", "9.9.9"}, {"dependencies", jobj{{"zz-below-nameless", jobj{{"version", "3.2.1"}}}}}}}
+				nokey = append(nokey, nv{"zz-below-nameless", "3.2.1"})
+			}
+			at := r.Intn(len(deps) + 1)
+			deps = append(deps[:at:at], append(jobj{e}, deps[at:]...)...)
+			nk = "-nokey"
+		}
+		doc = append(doc, jkv{"dependencies", deps})
 	}
 	l := randJLayout(r)
 	exp := dedup(npmExpect(tree, nil))
 	// a git dependency is keyed by its commit: two of them with the same name are two packages with the same (name, "") pair in v1
 	if ver == 1 {
-		exp = npmExpectV1(tree)
+		exp = dedup(append(npmExpectV1(tree), nokey...))
 	} else {
 		exp = npmExpectV2(tree)
 	}
-	return gcase{format: "plock", data: l.render(doc), expect: exp, known: true, class: fmt.Sprintf("wf-v%d-%s", ver, l)}
+	return gcase{format: "plock", data: l.render(doc), expect: exp, known: true, class: fmt.Sprintf("wf-v%d-%s%s", ver, l, nk)}
 }
 
 // the set of distinct packages a v1 tree lists: registry/alias packages by (name, version); file: packages by
@@ -462,10 +481,20 @@ func genPipfile(r *rand.Rand) gcase {
 			exp = append(exp, nv{name, ver})
 		}
 	}
+	pnk := ""
+	if r.Intn(5) == 0 { // an entry under an empty key names no package (fix ed6d851c)
+		e := jkv{"", jobj{{"version", "==" + pick(r, []string{"1.0", "2.3.4"})}}}
+		if r.Intn(2) == 0 {
+			def = append(def, e)
+		} else {
+			dev = append(jobj{e}, dev...)
+		}
+		pnk = "-nokey"
+	}
 	doc := jobj{{"_meta", jobj{{"hash", jobj{{"sha256", sha(r)}}}, {"pipfile-spec", 6}, {"requires", jobj{{"python_version", "3.11"}}},
 		{"sources", jarr{jobj{{"name", "pypi"}, {"url", "https://pypi.org/simple"}, {"verify_ssl", true}}}}}}, {"default", def}, {"develop", dev}}
 	l := randJLayout(r)
-	return gcase{format: "pipfile", data: l.render(doc), expect: exp, known: true, class: "wf-" + l.String()}
+	return gcase{format: "pipfile", data: l.render(doc), expect: exp, known: true, class: "wf-" + l.String() + pnk}
 }
 
 // ---- packages.lock.json ---------------------------------------------------------------------------------------------
@@ -583,7 +612,15 @@ func genPkgsLock(r *rand.Rand) gcase {
 			project = true
 		}
 	}
+	nokey := false
+	if r.Intn(5) == 0 { // an entry under an empty key names no package (fix 94fb6b98)
+		f := r.Intn(nfw)
+		fws[f] = append(fws[f], jkv{"", jobj{{"type", pick(r, []string{"Direct", "Transitive"})}, {"resolved", "1.2.3"}}})
+		nokey = true
+	}
 	switch {
+	case nokey:
+		cls = "wf-nokey"
 	case project:
 		cls = "wf-project"
 	case sharedDiff:
